@@ -31,6 +31,20 @@ CLAIMED = {
               "semantics modelled. The history-level theorem carries the hypothesis no_collision (C08 known finding: the "
               "table is keyed by the 32-bit cookie). env_ok (non-empty reply constants, table sanity) is re-proved per run."),
         technique="Coq theorems (state-level + refinement to 4-tuple reference model) + model/implementation correspondence"),
+    "C08": dict(
+        text=("Coq theorems over the model of reply(): for every history h and TCP frame f, the outcome of f after h equals "
+              "its outcome after h restricted to the data segments of f's own flow, provided no data segment of another "
+              "flow in h has the same 32-bit SYN cookie (boolean class predicate collision_free, extracted and used by the "
+              "check); for every frame that is not a TCP segment in scope the outcome does not depend on the table at all. "
+              "Inside the collision class the property is refuted by a kernel-computed witness (known finding). Tied to "
+              "/repo metamorphically: the implementation answers each probe after the full and after the restricted "
+              "history (restriction computed by the extracted specification) and the two replies are compared, and "
+              "model and implementation are compared on both."),
+        design="DESIGN.md section 5, C08",
+        note=("Trusted: Coq kernel/vm_compute, extraction + OCaml driver, harness; correspondence is testing; pnet accessor "
+              "semantics modelled. Known finding (collision class) listed in known_findings.txt; 'accepted data segments' "
+              "is widened to 'data segments of the same flow' (rejected ones do not change state: C09)."),
+        technique="Coq locality/refinement theorem over histories + refutation witness for the known class + metamorphic model/implementation correspondence"),
     "C09": dict(
         text=("Coq theorems by induction over arbitrary frame histories: the key set of the connection table equals the set "
               "of cookies of flows that sent a PSH|ACK acknowledging cookie+1, keys are duplicate-free, the table size "
